@@ -777,7 +777,7 @@ def _jsonable(x):
 
 
 # --------------------------------------------------------------------------- installed schemas (hint driven)
-URL_POOL = ["https://example.org/", "http://example.org", "https://example.org/a/b?c=d&e=f#frag", "https://EXAMPLE.org/Path", "http://example.org:80/",
+URL_POOL = ["https://orcid.org/0000-0002-1825-0097", "https://ror.org/02nr0ka47", "https://example.org/", "http://example.org", "https://example.org/a/b?c=d&e=f#frag", "https://EXAMPLE.org/Path", "http://example.org:80/",
             "https://example.org:8443/x", "https://user:pw@example.org/", "http://127.0.0.1/", "http://[::1]/", "https://xn--bcher-kva.example/", "https://bücher.example/",
             "https://example.org/a%20b", "https://example.org/ä", "http://localhost", "https://w3id.org/ro/crate/1.1/context", "https://example.org/?q=a b",
             "http://example.org//double", "https://example.org/.", "HTTPS://example.org/UP"]
@@ -786,7 +786,7 @@ DATETIME_POOL = ["2020-01-01T10:00:00", "2020-01-01T10:00:00Z", "2020-01-01T10:0
                  "2020-01-01T00:00:00", 1600000000, 1600000000.5, "2020-01-01T10:00:00.1Z", "2020-01-01T10:00Z"]
 TIME_POOL = ["10:00", "10:00:00", "23:59:59.999999", "00:00:00", "10:00:00Z", "10:00:00+01:00", "12:30:15.5"]
 LEAF_POOL = (STR_POOL + MIME_POOL + HASH_POOL + QHASH_POOL + DUR_POOL + UNIT_POOL + QTY_POOL + URL_POOL + DATE_POOL + DATETIME_POOL + TIME_POOL
-             + INT_POOL + FLOAT_POOL + [True, False, 3, 5, 10, 11, 0.5, 2.5, "5 px", "3px", [1, 2, 3], [0, 1, 0], ["a", "b"], {"k": "v"}])
+             + INT_POOL + FLOAT_POOL + [True, False, 3, 5, 10, 11, 0.5, 2.5, "5 px", "3px", "12.5 px", {"value": 7, "unitText": "px"}, [1, 2, 3], [0, 1, 0], ["a", "b"], {"k": "v"}])
 _leaf_cache = {}
 
 
@@ -866,6 +866,10 @@ def gen_for_hint(rng, hint, depth, stack=()):
     if isinstance(hint, type) and issubclass(hint, BaseModel):
         if stack.count(hint) >= 2 or depth < -1:
             return OMIT
+        if any("Parser" in c.__dict__ for c in hint.__mro__ if c.__name__ not in ("ParserMixin", "BaseModelPlus")):
+            cands = _leaf_candidates(hint)  # schema with a custom parser (Pixels, SIValue ...): take what it accepts
+            if cands and rng.random() < 0.8:
+                return rng.choice(cands)
         return gen_model_input(rng, hint, depth - 1, stack + (hint,))
     if isinstance(hint, type) and issubclass(hint, enum.Enum):
         return rng.choice(list(hint)).value
@@ -894,6 +898,13 @@ def gen_model_input(rng, cls, depth, stack=()):
         if not mf.required and (depth < 0 or rng.random() < 0.45):
             continue
         v = gen_for_hint(rng, mf.outer_type_, depth, stack)
+        lo = getattr(mf.field_info, "min_items", None)
+        if lo and isinstance(v, list) and len(v) < lo:
+            import typing_extensions as te
+
+            args = [a for a in te.get_args(mf.outer_type_) if a is not type(None)]
+            items = [gen_for_hint(rng, args[0], max(depth, 1) - 1, stack) for _ in range(lo)] if args else []
+            v = [x for x in items if x is not OMIT]
         if v is OMIT:
             continue
         if v is None and not mf.required:
@@ -918,11 +929,80 @@ def installed_schemas():
     from metador_core.plugin.metaclass import UndefVersion
     from metador_core.plugins import schemas
 
+    import typing
+
     out = {}
     for k in schemas.keys():
         S = schemas[k]
-        out[k.name] = UndefVersion._unwrap(S) or S
+        S = UndefVersion._unwrap(S) or S
+        if any(isinstance(f.outer_type_, typing.ForwardRef) for f in S.__fields__.values()):
+            # e.g. core.packerinfo (`packer: PGPacker.PluginRef` is never resolved by the package itself, the
+            # class cannot be instantiated before `.Partial` or `update_forward_refs()` is touched)
+            UNRESOLVED.add(k.name)
+            S.update_forward_refs()
+        out[k.name] = S
     return out
+
+
+UNRESOLVED = set()
+
+
+def repair_input(inp, errors):
+    """Drop the parts of a generated input that a custom validator of an installed schema
+    refuses (ORCID/ROR ids, unit lists ...). Returns True if something was removed."""
+    changed = False
+    for er in errors:
+        if er["loc"] and er["loc"][-1] == "__root__":
+            # a root validator relating several fields: drop the fields its message names
+            cur = inp
+            try:
+                for x in er["loc"][:-1]:
+                    if x != "__root__":
+                        cur = cur[x]
+            except (KeyError, IndexError, TypeError):
+                cur = None
+            if isinstance(cur, dict):
+                for k in list(cur):
+                    if k in er["msg"]:
+                        del cur[k]
+                        changed = True
+            continue
+        loc = [x for x in er["loc"] if x != "__root__"]
+        if er["msg"].startswith("field required") or not loc:
+            continue
+        cur, path = inp, list(loc)
+        parents = []
+        ok = True
+        for x in path[:-1]:
+            try:
+                parents.append((cur, x))
+                cur = cur[x]
+            except (KeyError, IndexError, TypeError):
+                ok = False
+                break
+        if not ok:
+            # the location names a field inside a value that is not a container here: drop one level up
+            while parents:
+                c, x = parents.pop()
+                try:
+                    del c[x]
+                    changed = True
+                    break
+                except (KeyError, IndexError, TypeError):
+                    continue
+            continue
+        try:
+            del cur[path[-1]]
+            changed = True
+        except (KeyError, IndexError, TypeError):
+            if parents:
+                c, x = parents[-1]
+                try:
+                    del c[x]
+                    changed = True
+                except (KeyError, IndexError, TypeError):
+                    pass
+    return changed
 
 
 # --------------------------------------------------------------------------- type-directed JSON canonicalisation
@@ -989,10 +1069,14 @@ def normal_forms(strings):
         for s in strings:
             try:
                 tbl[s] = json.loads(M(f=s).json())["f"]
-            except Exception:
+            except Exception as e:
                 tbl[s] = None
+                NF_ERRORS[(kind, s)] = "%s: %s" % (type(e).__name__, str(e)[:200])
         out[kind] = tbl
     return out
+
+
+NF_ERRORS = {}
 
 
 def nf_lines(nf, strings):
